@@ -671,6 +671,32 @@ class Gen:
             if r.random() < 0.15:
                 self.op_provide()
 
+    # ---- re-entrant user functions (judged by trace predicates only: the model has none)
+    def op_reentrant_web(self):
+        """a provider and decorator(s) of one key whose bodies call back into the container for a consumer of that key"""
+        r = self.r
+        sc = r.randrange(0, self.nscopes)
+        path = self.anc(sc)
+        (tt, tn) = self.fresh_key()
+        psc = r.choice(path)
+        cons = self.new_fn([self.single_in(tt, tn, optional=r.random() < 0.2)], [])
+        self.invokers.append((cons, sc))
+        pf = self.plain_provide(psc, [], tt, tn)
+        self.resolvable.append((psc, tt, tn))
+        re_ = {"scope": r.choice([sc, sc, psc]), "fn": cons}
+        if r.random() < 0.5:
+            self.script[str(pf)] = [{"k": "ok", "len": 1, "dt": 0, "eslot": 0, "re": re_}]
+        below_p = [s for s in path if psc in self.anc(s)]
+        for dsc in r.sample(below_p, min(len(below_p), r.choice([1, 1, 2]))):
+            df = self.new_fn([self.single_in(tt, tn)] if r.random() < 0.8 else [], [u(tt)] if not tn else
+                             [self.st([self.out_field(), self.field("V", u(tt), {"name": tn})])])
+            self.script[str(df)] = [{"k": r.choice(["ok", "ok", "err"]), "len": 1, "dt": 0, "eslot": 0,
+                                     "re": {"scope": r.choice([sc, dsc]), "fn": cons}},
+                                    {"k": "ok", "len": 1, "dt": 0, "eslot": 0, "re": {"scope": sc, "fn": cons}}]
+            self.ops.append({"op": "decorate", "scope": dsc, "fn": df, "cb": self.p("cb"), "info": False})
+        for _ in range(r.choice([1, 2])):
+            self.ops.append({"op": "invoke", "scope": sc if r.random() < 0.8 else r.choice(path), "fn": cons, "info": False})
+
     def op_invoke(self):
         r = self.r
         scope = r.randrange(0, self.nscopes)
@@ -748,6 +774,36 @@ class Gen:
 
 def generate(seed, w=None):
     return Gen(seed, w).program()
+
+
+def generate_reentrant(seed, w=None):
+    """a program some of whose constructors / decorators call Invoke from inside their bodies"""
+    g = Gen(seed, w)
+    p = g.program()
+    r = random.Random(seed ^ 0x5EED)
+    # a targeted web or two, spliced in before the closing sweep
+    tail = []
+    g.ops = tail
+    for _ in range(r.choice([1, 1, 2])):
+        g.op_reentrant_web()
+    p["ops"] = p["ops"] + tail
+    p["fns"] = g.fns
+    p["script"] = g.script
+    # random call-backs: functions registered exactly once call an invoker of the program
+    uses = {}
+    for o in p["ops"]:
+        if o["op"] in ("provide", "decorate"):
+            uses[o["fn"]] = uses.get(o["fn"], 0) + 1
+    invs = [(o["scope"], o["fn"]) for o in p["ops"] if o["op"] == "invoke" and not any(f["id"] == o["fn"] and f.get("nonfunc") for f in p["fns"])]
+    nonfunc = {f["id"] for f in p["fns"] if f.get("nonfunc")}
+    for f, n in uses.items():
+        if n == 1 and f not in nonfunc and invs and r.random() < 0.3:
+            behs = p["script"].setdefault(str(f), [{"k": "ok", "len": 1, "dt": 0, "eslot": 0}])
+            (s_, fn_) = r.choice(invs)
+            behs[0] = dict(behs[0], re={"scope": s_, "fn": fn_})
+    p["reentrant"] = True
+    p["cfg"]["dry"] = False
+    return p
 
 
 if __name__ == "__main__":
